@@ -426,9 +426,66 @@ def run(ctx):
                 seen.add(ast.dump(c[1]))
                 fcases.append(c)
         run_cases(ctx, model, desc, fcases[:ctx.budget(10, 40)], form="callable")
+    residual_called_lambdas(ctx)
+
+
+# ---------------------------------------------------------------- residual of F45 (open, listed in KNOWN_FINDINGS.txt by these exact witnesses)
+# An immediately called lambda is followed (its parameters typed by the arguments) only when it is called with exactly its plain
+# positional parameters; called with a keyword, or with a default left to apply, its body is not followed: a call site inside
+# it fires no callback and its MetaData is missing.  Found by a reviewer of round 11 on the unchanged tree; binding keywords and
+# defaults in process_called_lambda means visiting default expressions in the enclosing scope and putting the rewritten nodes back -
+# not a small change, and the model (called_ok / bind_params in Model/TypeFollow.v) and four whole-query theorems follow the code.
+
+_RES_LOG = []
+
+
+def _res_cb(s, a):
+    _RES_LOG.append(ast.unparse(a))
+    return s.MetaData({"m": "jetpt"}), a
+
+
+class ResJet:
+    @__import__("func_adl").func_adl_callback(_res_cb)
+    def pt(self) -> float: ...
+
+
+class ResEvent:
+    def LeadJet(self) -> ResJet: ...
+
+
+RESIDUAL = ["lambda e: (lambda j: j.pt())(j=e.LeadJet())", "lambda e: (lambda j, k=1: j.pt())(e.LeadJet())"]
+RESIDUAL_CONTROL = "lambda e: (lambda j: j.pt())(e.LeadJet())"
+
+
+def residual_called_lambdas(ctx, only=None):
+    import logging
+    from func_adl import ObjectStream
+
+    logging.disable(logging.CRITICAL)
+    try:
+        for src in [RESIDUAL_CONTROL] + RESIDUAL:
+            if only is not None and src != only:
+                continue
+            del _RES_LOG[:]
+            st = ObjectStream[ResEvent](ast.Name("ds", ast.Load()), ResEvent).Select(src)
+            fired = list(_RES_LOG)
+            has_md = "MetaData" in ast.dump(st.query_ast)
+            ctx.evaluations += 1
+            ok = fired == ["j.pt()"] and has_md
+            ctx.count("called_lambda_binding", ("control" if src == RESIDUAL_CONTROL else "keyword/default") + (": callback fired" if ok else ": NOT fired"))
+            if not ok:
+                ctx.fail("failing-input", "Select(%s) on a typed stream: the call site j.pt() inside the called lambda fired %r and the "
+                         "stream %s the callback's MetaData; the property requires one invocation and the MetaData upstream"
+                         % (src, fired, "carries" if has_md else "does not carry"),
+                         {"oracle": "called-lambda-binding", "lambda": src}, key=core.digest({"p": ID, "called-lambda": src}))
+    finally:
+        logging.disable(logging.NOTSET)
 
 
 def replay(ctx, wit):
+    if wit.get("oracle") == "called-lambda-binding":
+        residual_called_lambdas(ctx, only=wit["lambda"])
+        return
     desc = wit["desc"]
     model = tc.Model(desc)
     q = eval(wit["query_dump"], dict(vars(ast)))
